@@ -12,7 +12,8 @@ script = {"hid": str, "lib": path | null, "ops": [op...]}
                                        th's file (default: append), new mtime;  {"op": "touch", "name": th, "delete": index |
                                        "delete_item": [ty, name]} deletes an item
   {"op": "reimport", "name": th, "imports": [..]} give the scratch copy of th's file another import list, new mtime
-  {"op": "create", "name": new, "copy": th [, "imports": [..]]}   new file = copy of th's current file (optionally other imports)
+  {"op": "create", "name": new, "copy": th | null [, "imports": [..]]}   new file = copy of th's current file (optionally other imports);
+                                       without "copy": a theory without items
   {"op": "remove", "name": th}         delete th's file from the scratch library
 Every event carries "fs": the log of the file operations done so far, [kind, file, arg, position, imports] with kind in
 create (arg = copied theory) / remove / ins (arg = constant name) / del / reimport, from which the trace specification computes
@@ -184,12 +185,15 @@ def run_script(script, out_path):
                 # a new file in the scratch library: a copy of the CURRENT file of theory op["copy"], optionally with other imports
                 ev["name"] = op["name"]
                 path = scratch_path(op["name"])
-                data = json.load(open(scratch_path(op["copy"]), encoding="utf-8"))
+                if op.get("copy"):
+                    data = json.load(open(scratch_path(op["copy"]), encoding="utf-8"))
+                else:                      # a theory without items
+                    data = {"name": op["name"], "imports": [], "description": "", "content": []}
                 if op.get("imports") is not None:
                     data["imports"] = list(op["imports"])
                 mt = new_mtime(path, op["name"]) if (os.path.exists(path) or op["name"] in last_mtime) else time.time()
                 _write_json(path, data, mt)
-                fs.append(["create", op["name"], op["copy"], 0, list(data["imports"])])
+                fs.append(["create", op["name"], op.get("copy") or "", 0, list(data["imports"])])
             elif op["op"] == "remove":
                 ev["name"] = op["name"]
                 path = scratch_path(op["name"])
